@@ -879,6 +879,7 @@ class unreach (packet_base, unpack_new_adapter):
   MIN_LEN = 4
 
   def __init__ (self, raw=None, prev=None, **kw):
+    packet_base.__init__(self)
 
     self.prev = prev
 
@@ -890,9 +891,7 @@ class unreach (packet_base, unpack_new_adapter):
     self._init(kw)
 
   def __str__ (self):
-    s = ''.join(('[', 'm:', str(self.next_mtu), ']'))
-
-    return _str_rest(s, self)
+    return '[ICMP6 unreach]'
 
   def parse (self, raw):
     assert isinstance(raw, bytes)
